@@ -485,7 +485,7 @@ func runC12() int {
 	// depth-1 sweep over whole program families: every operation once on every control-flow tree (global
 	// and function-local accumulators), so that "no backend modifies the module it is given" is judged on
 	// every statement shape of the alphabet and not only on the representatives above
-	sweep := []*wgen.Family{wgen.F2(2, false), wgen.F2L(2, false)}
+	sweep := []*wgen.Family{wgen.F2(2, false), wgen.F2L(2, false), wgen.F2LMini(3, 1), wgen.F2LMini(3, 2)}
 	if r.Thorough() {
 		sweep = []*wgen.Family{wgen.F2(3, false), wgen.F2L(3, false)}
 	}
